@@ -73,6 +73,18 @@ impl Family for C06 {
       let re = vec![Json::obj(vec![("on", Json::str("next")), ("do", Json::Int(1))])];
       return spec_to_json(p, &sources, &order, vec![("reenter", Json::Arr(re))]);
     }
+    if rng.below(60) == 0 {
+      // an endless start_with prefix under an operator that has all it needs after a few items:
+      // the prefix must stop being pulled
+      let inner = Json::obj(vec![("op", Json::str("start_with_endless")), ("a", Json::Int(0)), ("in", Json::obj(vec![("src", Json::Int(0))]))]);
+      let input = Json::obj(vec![("op", Json::str("probe")), ("a", Json::Int(1)), ("in", inner)]);
+      let (op, a) = *rng.pick(&[("take", 1i64), ("take", 3), ("first", 0), ("element_at", 2), ("take_while", 9), ("contains", 2)]);
+      let cause = Json::obj(vec![("op", Json::str(op)), ("a", Json::Int(a)), ("in", input)]);
+      let p = Json::obj(vec![("op", Json::str("probe")), ("a", Json::Int(0)), ("in", cause)]);
+      let sources = gen_sources(rng, 1, 3, false, &[Mode::Hot]);
+      let order = gen_order(rng, &sources, 1);
+      return spec_to_json(p, &sources, &order, vec![("reenter", Json::Arr(vec![]))]);
+    }
     let shape_amb_unbounded_loser = rng.below(30) == 0;
     let cause = if shape_amb_unbounded_loser {
       // amb whose first input signals inside subscribe and stays open (hot source behind start_with),
@@ -173,7 +185,7 @@ impl Family for C06 {
     below.dedup();
     let mut all_used = Vec::new();
     pipe::sources_used(&spec.pipeline, nsrc, &mut all_used);
-    let uses_endless = pshow.contains("repeat(") || pshow.contains("endless_iter(");
+    let uses_endless = pshow.contains("repeat(") || pshow.contains("endless_iter(") || pshow.contains("start_with_endless(");
     match &r.res.outcome {
       rxsim_rt::Outcome::Ok => {
         let evs = r.rec.events();
